@@ -45,7 +45,10 @@ CLAIMS = {
                      "PortsCfg (constructors and match, all 4x4 selection kinds, arbitrary string sets of any size, loop "
                      "invariant for the set loop) is discharged by z3. The look-up sites of create_dzn_elements (exposed "
                      "port gets sem(), uncovered/unknown names rejected without files, injected ports never exposed) are "
-                     "checked on the generator shape corpus (bounded structure, symbolic content).",
+                     "checked on the generator shape corpus (bounded structure, symbolic content) AND by an unbounded contract of "
+                     "create_dzn_elements for a component / system with any number of ports (callees by contract): the "
+                     "result lists are exactly specs.wiring_unbounded.exposed_ports, every path returns or raises a "
+                     "library error, a port without semantics rejects only if it is exposed and uncovered.",
                 note=COMMON_NOTE + "Model validity: port names non-empty, provides/requires names disjoint. The second "
                      "part uses the generator harness (its bound applies to that part only).",
                 technique="contract-based deductive verification: VCs from symbolic execution of the real AST, loop "
@@ -74,7 +77,7 @@ CLAIMS = {
     'C07': gen("Per shape, for all names: port interface types and parameter type texts are those of the declaration on "
                "the scope chain of the referring scope (decoys in unrelated namespaces never used); missing, ambiguous, "
                "shadowed-by-another-kind and wrong-kind lookups fail with FindError/MultiClientCfgError. The unbounded "
-               "lookup contract itself is C14." + UNB + "the reroute functions type every parameter by ghost.extern_of(type name, interface fqn) - the lookup from the interface's own scope, whose result set is C14's proved contract.", '3/C07'),
+               "lookup contract itself is C14." + UNB + "the reroute functions type every parameter by ghost.extern_of(type name, interface fqn) - the lookup from the interface's own scope, whose result set is C14's proved contract. create_dzn_elements (any number of ports): every port's interface is ghost.lookup(type name, fqn of the scope the component lives in)[0], exactly one Interface or FindError.", '3/C07'),
     'C08': gen("Per shape: content hash == MD5 hex digest of the UTF-8 contents (opaque pure functions); the files are "
                "identical under different set-iteration oracles (2-safety, quick: 2 orders, thorough: all permutations "
                "of <= 3 elements); no write to module-level state (frame). Native corpus adds runs under different "
@@ -89,7 +92,7 @@ CLAIMS = {
                "written during the build (every mutation site is checked by the executor on every path); support files "
                "equal their stand-alone generation.", '3/C12'),
     'C13': gen("Per shape: valid inputs return the 8 files with the specified names; each invalid shape is rejected with "
-               "the specified library error type; no builtin/internal exception type escapes on any path." + UNB + "check_multiclient_cfg for any interface / settings / lookup result: a fixture or MultiClientCfgError, never an internal error.", '3/C13'),
+               "the specified library error type; no builtin/internal exception type escapes on any path." + UNB + "check_multiclient_cfg for any interface / settings / lookup result: a fixture or MultiClientCfgError, never an internal error. create_dzn_elements (any number of ports): returns the exposed ports or raises AdvShellError / MultiClientCfgError / FindError, never an internal error; a missing semantics rejects only for an exposed port.", '3/C13'),
     'C14': dict(category='proof',
                 text="Proof, unbounded: NamespaceIds invariant, + / += / str, notation round trips, NamespaceTree.fqn "
                      "(recursion by contract), scope_resolution_order (while-loop invariant, frame), find_fqn == lookup "
